@@ -85,12 +85,19 @@ mutant("m14e", "C14", "asmjit/core/assembler.cpp", "  Error err = _code->new_rel
 mutant("m14f", "C14", "asmjit/arm/a64assembler.cpp", "        // Offset is encoded as 7-bit immediate.\n        if (!Support::is_int_n<7>(offset32))", "        // Offset is encoded as 7-bit immediate.\n        if (!Support::is_int_n<8>(offset32))", "a64 ldp/stp accept an 8-bit scaled offset (encoded modulo 128)")
 mutant("m14g", "C14", "asmjit/arm/a64assembler.cpp", "        if (imm16 > 0xFFFFu || shiftValue > 48 || shift_type != uint32_t(ShiftOp::kLSL))", "        if (imm16 > 0xFFFFu || shiftValue > 64 || shift_type != uint32_t(ShiftOp::kLSL))", "a64 movz/movk/movn accept lsl #64")
 # ---- C04 -----------------------------------------------------------------------------------------------------------
-mutant("m04a", "C04", "asmjit/core/codeholder.cpp", "      case RelocType::kAbsToRel: {\n        value -= base_address + section_offset + source_offset + region_size;", "      case RelocType::kAbsToRel: {\n        value -= base_address + section_offset + source_offset;", "kAbsToRel forgets the size of the relocated region")
+mutant("m04a", "C04", "asmjit/core/codeholder.cpp", "        value -= source_address + region_size;", "        value -= source_address;", "kAbsToRel forgets the size of the relocated region")
 mutant("m04b", "C04", "asmjit/core/codeholder.cpp", "          size_t at_entry_index = size_t(at_entry->slot()) * address_size;", "          size_t at_entry_index = size_t(at_entry->slot()) * 4u;", "address table slot index scaled by 4 instead of the address size")
 mutant("m04c", "C04", "asmjit/core/codeholder.cpp", "          if (byte1 == 0xE8) {\n            // Patch CALL/MOD byte to FF /2 (-> 0x15).\n            byte1 = x86_encode_mod(0, 2, 5);\n          }\n          else if (byte1 == 0xE9) {\n            // Patch JMP/MOD byte to FF /4 (-> 0x25).\n            byte1 = x86_encode_mod(0, 4, 5);\n          }",
        "          if (byte1 == 0xE8) {\n            // Patch CALL/MOD byte to FF /2 (-> 0x15).\n            byte1 = x86_encode_mod(0, 2, 5);\n          }\n          else if (byte1 == 0xE9) {\n            // Patch JMP/MOD byte to FF /4 (-> 0x25).\n            byte1 = x86_encode_mod(0, 2, 5);\n          }", "far jmp rewritten to a call through the address table")
 mutant("m04d", "C04", "asmjit/core/codeholder.cpp", "    // The entries written to the address table are its content regardless of where the section is.\n    address_table_section->_buffer._size = address_table_size;\n", "    if (_sections_by_order.last() == address_table_section) address_table_section->_buffer._size = address_table_size;\n", "revert fix: address table empty when it is not the last section")
 mutant("m04e", "C04", "asmjit/core/codeholder.cpp", "        value += base_address + target_section->offset();", "        value += base_address + (target_section->section_id() ? target_section->offset() : 0u) + target_section->offset();", "kRelToAbs adds the section offset twice for sections other than .text... (only visible with a data section)")
+mutant("m04f", "C04", "asmjit/core/codeholder.cpp", "          source_address &= ~uint64_t(4096 - 1);\n", "", "revert fix: adrp relocated relative to the instruction instead of its page")
+# ---- reverted repairs of round 7 ------------------------------------------------------------------------------------
+mutant("m09m", "C09", J, "    if (size != 0) {\n      return JitAllocatorImpl_shrink(static_cast<JitAllocatorPrivateImpl*>(_impl), span, size, true);\n    }\n", "    return JitAllocatorImpl_shrink(static_cast<JitAllocatorPrivateImpl*>(_impl), span, size, true);\n", "revert fix: write(fn) that shrinks to zero runs the internal shrink with size 0")
+mutant("m14h", "C14", "asmjit/x86/x86assembler.cpp", "    if (ASMJIT_UNLIKELY(!_code)) {\n      reset_state();\n      return report_error(make_error(Error::kNotInitialized));", "    if (ASMJIT_UNLIKELY(!_code)) {\n      return report_error(make_error(Error::kNotInitialized));", "revert fix: emit on a detached x86 Assembler keeps the one-shot state")
+mutant("m14i", "C14", "asmjit/core/emitter.cpp", "      reset_state();\n      return report_error(make_error(Error::kInvalidArgument));", "      return make_error(Error::kInvalidArgument);", "revert fix: emit_op_array with more than six operands bypasses the handler and keeps the one-shot state")
+mutant("m18h", "C18", "asmjit/support/arenavector.h", "    ASMJIT_PROPAGATE(reserve_additional(arena));\n\n    memcpy(static_cast<void*>(static_cast<T*>(_data) + _size),\n           static_cast<const void*>(item_copy),", "    ASMJIT_PROPAGATE(reserve_additional(arena));\n\n    memcpy(static_cast<void*>(static_cast<T*>(_data) + _size),\n           static_cast<const void*>(&item),", "revert fix: append() reads its argument after the storage was reallocated")
+mutant("m19f", "C19", "asmjit/core/compiler.cpp", "    if (local_const_pool) {\n      compiler.add_after(local_const_pool, compiler.last_node());", "    if (local_const_pool && false) {\n      compiler.add_after(local_const_pool, compiler.last_node());", "revert fix: a local constant pool pending at finalize() is not emitted")
 
 def run(cmd, env=None, timeout=3600):
     e = dict(os.environ); e.update(env or {})
